@@ -217,6 +217,18 @@ def main(tier, seed, replay=None):
         rc, so, se = run_n2(n2, d2, ["-j", "1", "-k", "5", "a", "c"])
         if rc == 0 or os.path.exists(os.path.join(d2, "b")):
             run.report_failure(None, "build continued / succeeded after SIGINT", {"stdout": so.decode("utf-8", "replace")[-300:], "rc": rc})
+        # ... also when only the command received the signal and the failure budget is not used up (-k N)
+        for kflag in ("10", "2"):
+            d3 = os.path.join(base, "c3-" + kflag)
+            os.makedirs(d3)
+            open(os.path.join(d3, "build.ninja"), "w").write(
+                "rule sig\n  command = echo $out >> started.log; kill -INT $$$$\nbuild i1: sig\nbuild i2: sig\nbuild i3: sig\n")
+            rc, so, se = run_n2(n2, d3, ["-j", "1", "-k", kflag, "i1", "i2", "i3"])
+            started = open(os.path.join(d3, "started.log")).read().split() if os.path.exists(os.path.join(d3, "started.log")) else []
+            stats["signals"] += 1
+            if rc == 0 or len(started) != 1:
+                run.report_failure(None, "a command died from SIGINT under -k %s: %d commands were started (an interruption stops the build), n2 exit %d" % (
+                    kflag, len(started), rc), {"stdout": so.decode("utf-8", "replace")[-300:], "rc": rc, "started": started})
     finally:
         shutil.rmtree(base, ignore_errors=True)
     run.coverage.update(info)
